@@ -732,6 +732,15 @@ func init() {
 		need(a, 2)
 		s := e.bs(a[1])
 		t := newLike(s)
+		if len(a) >= 3 {
+			// `bmarsh t s u`: load into the previously used index u (which is consumed)
+			u := e.bs(a[2])
+			if u.is64 != s.is64 || u == s {
+				panic(skipErr{"receiver of another kind"})
+			}
+			t = u
+			delete(e.bsis, a[2])
+		}
 		var data [][]byte
 		var err error
 		if s.is64 {
@@ -771,6 +780,14 @@ func init() {
 		}
 		total := buf.Len()
 		t := newLike(s)
+		if len(a) >= 3 {
+			u := e.bs(a[2])
+			if !u.is64 || u == s {
+				panic(skipErr{"receiver of another kind"})
+			}
+			t = u
+			delete(e.bsis, a[2])
+		}
 		rn, err := t.b64.ReadFrom(bytes.NewReader(append([]byte{}, buf.Bytes()...)))
 		if err != nil {
 			return "err:read"
